@@ -508,8 +508,10 @@ YR_API int yr_scanner_scan_mem_blocks(
     }
 
     // The entry point is computed again for each scan, it must not survive
-    // from the previous one.
+    // from the previous one. The same goes for the string that caused the
+    // last error.
     scanner->entry_point = YR_UNDEFINED;
+    scanner->last_error_string = NULL;
 
     // Create the notebook that will hold the YR_MATCH structures representing
     // each match found. This notebook will also contain snippets of the
@@ -783,6 +785,9 @@ YR_API int yr_scanner_scan_file(YR_SCANNER* scanner, const char* filename)
 {
   YR_MAPPED_FILE mfile;
 
+  // The error of a previous scan must not be attributed to this one.
+  scanner->last_error_string = NULL;
+
   int result = yr_filemap_map(filename, &mfile);
 
   if (result == ERROR_SUCCESS)
@@ -798,6 +803,9 @@ YR_API int yr_scanner_scan_fd(YR_SCANNER* scanner, YR_FILE_DESCRIPTOR fd)
 {
   YR_MAPPED_FILE mfile;
 
+  // The error of a previous scan must not be attributed to this one.
+  scanner->last_error_string = NULL;
+
   int result = yr_filemap_map_fd(fd, 0, 0, &mfile);
 
   if (result == ERROR_SUCCESS)
@@ -812,6 +820,9 @@ YR_API int yr_scanner_scan_fd(YR_SCANNER* scanner, YR_FILE_DESCRIPTOR fd)
 YR_API int yr_scanner_scan_proc(YR_SCANNER* scanner, int pid)
 {
   YR_MEMORY_BLOCK_ITERATOR iterator;
+
+  // The error of a previous scan must not be attributed to this one.
+  scanner->last_error_string = NULL;
 
   int result = yr_process_open_iterator(pid, &iterator);
 
